@@ -33,7 +33,7 @@ func c11srvParts(c *vx.Ctx) []c10srvPart {
 	return []c10srvPart{
 		{"srv/win8/empty", small, nil, aSmall, 7},
 		{"srv/conn65535/prefilled", connB, seedConn, aConn, 6},
-		{"srv/conn65535/prefilled-two-streams", connB, seedConn2, aConn, 5},
+		{"srv/conn65535/prefilled-two-streams", connB, seedConn2, aConn, 4},
 		{"srv/rr/win8/empty", c08srvCfg{Sched: "rr", StrWin: 8}, nil, aSmall, 5},
 	}
 }
